@@ -34,7 +34,7 @@ theorem eval_let (X : Ctx p q) {x : String} {vt : Fun.Ty} {bound body : Fun.Term
     (hc : Compiled q n (.letIn x vt bound body lty) c s)
     (he : EnvRel (GP p) q n (fv (.letIn x vt bound body lty)) env ρ0) (hr : CRel (GP p) q n k c ρ0)
     (hbd : BoundOn (tfvStmt s []) ρ0) (hag : AgreeOn (tfvStmt s []) ρ0 ρ) :
-    Chunk p q (R p q) true (.eval (.letIn x vt bound body lty) env k) ⟨s, ρ, out, n⟩ := by
+    Chunk p q (R p q) true true (funSize (.letIn x vt bound body lty)) (.eval (.letIn x vt bound body lty) env k) ⟨s, ρ, out, n⟩ := by
   simp only [good, Bool.and_eq_true] at hg
   obtain ⟨⟨hnct, hgi⟩, hgb⟩ := hg
   obtain ⟨st, st', hcwc, hst, htn, hcn⟩ := hc
@@ -155,7 +155,7 @@ theorem eval_let (X : Ctx p q) {x : String} {vt : Fun.Ty} {bound body : Fun.Term
       obtain ⟨ρ02, hext0, hag2⟩ := hext.agree (ρ0 := ρ0')
       obtain ⟨stb, stb', h1, h2, h3, h4⟩ := hcbody
       refine .inr ⟨0, _, .eval body ((x, v) :: env) k, [], i, _, .refl _, .inr ⟨none, hstep, rfl⟩,
-        (fun _ => .inr (.inl (by intro h; cases h))), hcs, by simp, ?_⟩
+        (fun _ => .inr (.inl (by intro h; cases h))), (fun _ => .inr (by simp only [msize, funSize]; omega)), hcs, by simp, ?_⟩
       refine SRel.eval (ρ0 := (⟨x, 0⟩, V) :: ρ02) (c := c') hgi ⟨stb, stb', h1, h2, h3, h4.mono hn2⟩ ?_ ?_ ?_ ?_
       · refine EnvRel.bind ?_ (hvr.mono hn2)
         refine ((he'.sub fun y hy => ?_).mono hn2).sigExt hext0 fun y hy =>
@@ -179,7 +179,7 @@ theorem eval_let (X : Ctx p q) {x : String} {vt : Fun.Ty} {bound body : Fun.Term
     have hcd' : Fun.isCodataTy p vt = false := by simpa using hcd
     have f1 : FSteps p (.eval (.letIn x vt bound body lty) env k)
         (.eval bound env (.letF x body env :: k)) [] 1 := .one (step_let_nc p x vt bound body lty env k hcd')
-    refine Chunk.prefix f1 (.refl _) rfl (fun _ => Nat.le_refl _) ?_
+    refine Chunk.prefix f1 (.refl _) rfl (fun _ => Nat.le_refl _) (fun h => .inr h) ?_
     refine guard_sim X (fv (.letIn x vt bound body lty)) hcwc hnct hxu htn.fv hcn he hr hbd hag ?_
     intro c' st1 s' ρ0' ρ' hcore hfs hcn' hyg he' hr' hbd' hag'
     obtain ⟨inStmt, st2, hcb, f2', hcbody, tnbound, hst2, hshape, hcnmu⟩ := hbody c' st1 s' hcore hfs hcn'
@@ -198,7 +198,7 @@ theorem eval_let (X : Ctx p q) {x : String} {vt : Fun.Ty} {bound body : Fun.Term
       · intro b hb
         obtain ⟨h1, h2⟩ := List.mem_filter.1 hb
         exact hbdK b (mem_tfv_mu_of h1 (by simpa using h2))
-    refine .inr ⟨0, _, _, [], 0, _, .refl _, .inl ⟨rfl, rfl⟩, (fun h => by cases h), .refl _, by simp, ?_⟩
+    refine .inr ⟨0, _, _, [], 0, _, .refl _, .inl ⟨rfl, rfl⟩, (fun h => by cases h), (fun _ => .inr (by simp only [msize, funSize]; omega)), .refl _, by simp, ?_⟩
     exact SRel.eval (ρ0 := ρp) hgb
       ⟨st2, st', hshape, hst, tnbound, hcnmu⟩
       (hep.sub fun y hy => by simp [fv, hy])
@@ -211,7 +211,7 @@ theorem eval_label (X : Ctx p q) {a : String} {t : Fun.Term}
     (hc : Compiled q n (.label a t lty) c s)
     (he : EnvRel (GP p) q n (fv (.label a t lty)) env ρ0) (hr : CRel (GP p) q n k c ρ0)
     (hbd : BoundOn (tfvStmt s []) ρ0) (hag : AgreeOn (tfvStmt s []) ρ0 ρ) :
-    Chunk p q (R p q) true (.eval (.label a t lty) env k) ⟨s, ρ, out, n⟩ := by
+    Chunk p q (R p q) true true μ (.eval (.label a t lty) env k) ⟨s, ρ, out, n⟩ := by
   simp only [good, Bool.and_eq_true] at hg
   obtain ⟨hg, hncd⟩ := hg
   obtain ⟨st, st', hcwc, hst, htn, hcn⟩ := hc
@@ -238,7 +238,7 @@ theorem eval_label (X : Ctx p q) {a : String} {t : Fun.Term}
         have f1 : Fun.step p (.eval (.label a t (some τ)) env k) =
             .next (.eval t ((a, .cont k) :: env) k) none := rfl
         refine .inr ⟨0, _, _, [], 1, _, .refl _, .inr ⟨none, f1, rfl⟩,
-          (fun _ => .inr (.inl (by intro h; cases h))), .one hs, by simp, ?_⟩
+          (fun _ => .inr (.inl (by intro h; cases h))), (fun _ => .inl (Nat.le_refl 1)), .one hs, by simp, ?_⟩
         refine SRel.eval (c := .var .cns ⟨a, 0⟩ (compileTy τ)) (ρ0 := (⟨a, 0⟩, cv) :: ρ0) hg ?_ ?_ ?_ ?_ ?_
         · refine ⟨st, st1, hx, hst, ⟨fun y hy => ?_, fun y hy => ?_, htn.nosig⟩, ?_⟩
           · by_cases hya : y = a
@@ -273,7 +273,7 @@ theorem eval_goto (X : Ctx p q) {a : String} {u : Fun.Term}
     (hc : Compiled q n (.goto a u gty) c s)
     (he : EnvRel (GP p) q n (fv (.goto a u gty)) env ρ0)
     (hbd : BoundOn (tfvStmt s []) ρ0) (hag : AgreeOn (tfvStmt s []) ρ0 ρ) :
-    Chunk p q (R p q) true (.eval (.goto a u gty) env k) ⟨s, ρ, out, n⟩ := by
+    Chunk p q (R p q) true true (funSize (.goto a u gty)) (.eval (.goto a u gty) env k) ⟨s, ρ, out, n⟩ := by
   simp only [good, Bool.and_eq_true] at hg
   obtain ⟨⟨hg, hncd⟩, _⟩ := hg
   obtain ⟨st, st', hcwc, hst, htn, hcn⟩ := hc
@@ -296,7 +296,7 @@ theorem eval_goto (X : Ctx p q) {a : String} {u : Fun.Term}
     | @cont k' _ hk =>
       simp only at hstep
       refine .inr ⟨0, _, _, [], 0, _, .refl _, .inr ⟨none, hstep, rfl⟩,
-        (fun _ => .inr (.inl (by intro h; cases h))), .refl _, by simp, ?_⟩
+        (fun _ => .inr (.inl (by intro h; cases h))), (fun _ => .inr (by simp only [msize, funSize]; omega)), .refl _, by simp, ?_⟩
       refine SRel.eval (c := .var .cns ⟨a, 0⟩ (compileTy τ)) (ρ0 := ρ0) hg ?_
         (he.sub fun y hy => by simp [fv, hy]) ?_ hbd hag
       · refine ⟨st, st', hcwc, hst, htn.of_sub (fun y hy => by simp [fv, hy])
@@ -314,11 +314,11 @@ theorem eval_paren {t : Fun.Term} {env : Fun.Env} {k : Fun.Stack} {c : Core.Term
     (hc : Compiled q n (.paren t) c s)
     (he : EnvRel (GP p) q n (fv (.paren t)) env ρ0) (hr : CRel (GP p) q n k c ρ0)
     (hbd : BoundOn (tfvStmt s []) ρ0) (hag : AgreeOn (tfvStmt s []) ρ0 ρ) :
-    Chunk p q (R p q) true (.eval (.paren t) env k) ⟨s, ρ, out, n⟩ := by
+    Chunk p q (R p q) true true (funSize (.paren t)) (.eval (.paren t) env k) ⟨s, ρ, out, n⟩ := by
   obtain ⟨st, st', hcwc, hst, htn, hcn⟩ := hc
   have f1 : Fun.step p (.eval (.paren t) env k) = .next (.eval t env k) none := rfl
   refine .inr ⟨0, _, _, [], 0, _, .refl _, .inr ⟨none, f1, rfl⟩,
-    (fun _ => .inr (.inl (by intro h; cases h))), .refl _, by simp, ?_⟩
+    (fun _ => .inr (.inl (by intro h; cases h))), (fun _ => .inr (by simp only [msize, funSize]; omega)), .refl _, by simp, ?_⟩
   exact SRel.eval (ρ0 := ρ0) (by simpa [good] using hg)
     ⟨st, st', by rwa [cwc_paren] at hcwc, hst,
       ⟨by simpa [fv] using htn.fv, by simpa [binderNames] using htn.bd, htn.nosig⟩, hcn⟩
